@@ -146,6 +146,11 @@ def _args_c04(ck, mod, f, label, call, a, A, where, mi, li):
                   where=where)
     # C04: plaintext pointer is the entry m, length is clen - 8
     okp = ir.ptr_base(f, a[0]) == (("a", mi), 0)
+    if not okp:
+        # three-valued like the other argument rules: proven through merges, refuted only by a constant / parameter difference
+        okp, whyp = aff.prove_equal(A, a[0], aff.Lin.sym(("a", mi)), call.b)
+        if okp is None:
+            raise Broken("%s: the plaintext pointer passed to check_tag cannot be related to m by the affine analysis (%s)" % (f.name, whyp))
     ck.ob(okp, "R-C04-ARGS", f.name, "wipe-start[%s]" % label, "check_tag receives the start of the plaintext buffer (entry value of m)",
           "check_tag receives %s, not the start of the plaintext buffer: the beginning of the candidate plaintext survives a rejection" % A.names(A.value(a[0])),
           where=where)
